@@ -172,7 +172,17 @@ def make_request(cls, k, rng, projdir, corpus, big):
 
 def main():
     data = json.load(sys.stdin)
-    projdir = data['projdir']
+    # a private copy of the project: the histories edit project files between requests
+    import shutil
+    projdir = data['projdir'] + '-w%d' % os.getpid()
+    shutil.copytree(data['projdir'], projdir)
+    try:
+        return main_on(data, projdir)
+    finally:
+        shutil.rmtree(projdir, ignore_errors=True)
+
+
+def main_on(data, projdir):
     import supp.remote as remote
     repo = os.path.dirname(os.path.dirname(remote.__file__))
     corpus = [(os.path.join(projdir, 'snip%d.py' % i), s) for i, s in enumerate(SNIPPETS)]
@@ -180,16 +190,36 @@ def main():
         p = os.path.join(repo, rel)
         corpus.append((p, open(p).read()))
     out = []
+    edits = [0]
     for job in data['jobs']:
         rng = random.Random(job['seed'])
         env = remote.Environment()
         local = Local()
         records = []
         reqs = []
+        pending = None
         try:
             for k, cls in enumerate(job['seq'], 1):
                 big = job.get('big', 0) if rng.random() < 0.25 else 0
                 name, args, kwargs, has_local = make_request(cls, k, rng, projdir, corpus, big)
+                if cls == 'api' and pending is not None:
+                    # a project file changes on disk and the SAME request is sent again: the reply follows the disk
+                    edits[0] += 1
+                    target = os.path.join(projdir, rng.choice(['util.py', 'pkg/mod.py']))
+                    with open(target, 'a') as fd:
+                        fd.write('edit_%d = %d\n' % (edits[0], edits[0]))
+                    st = os.stat(target)
+                    os.utime(target, (st.st_atime, st.st_mtime + 5 * edits[0]))
+                    name, args, kwargs, has_local = pending
+                    pending = None
+                elif cls == 'api' and rng.random() < 0.25:
+                    # a request whose answer depends on what the project modules define (names edit_<n> appear with the edits)
+                    sens = 'from util import *\nfrom star import *\nprint(CONST, %s)\n' % ', '.join('edit_%d' % (edits[0] + i) for i in range(1, 4))
+                    fn = os.path.join(projdir, 'sens.py')
+                    which = rng.choice(['lint', 'lint', 'assist'])
+                    name, args, kwargs, has_local = (('lint', [sens, fn], {}, True) if which == 'lint' else
+                                                     ('assist', [sens, [3, len('print(CONST, edit_')], fn], {}, True))
+                    pending = (name, args, kwargs, has_local)
                 reqs.append([name, digest(args)[:300]])
                 # remote
                 rem = {'kind': 'ok', 'val': '', 'msg': ''}
